@@ -44,6 +44,7 @@ def _pred():
         st.tuples(st.just("eq"), st.sampled_from(["a", "b", "c"]), st.sampled_from(VA + VB)),
         st.tuples(st.just("isnone"), st.sampled_from(["a", "b", "c", "d"])),
         st.tuples(st.just("has"), st.sampled_from(["c", "d"])),
+        st.tuples(st.just("truthy"), st.sampled_from(["a", "b", "c", "d"]), st.booleans()),
     ).map(list)
 
 
@@ -60,7 +61,7 @@ def _op(draw, counter):
     name = draw(st.sampled_from([
         "filter", "filter_out", "filter_kv", "filter_out_kv", "sort", "sort", "unique", "select", "unselect", "rename",
         "modify", "modify_if", "fill", "fill", "append", "extend", "insert", "insert", "add", "mul", "reverse", "head", "tail",
-        "tail", "slice", "keys", "keys"]))
+        "tail", "slice", "keys", "keys", "group_by", "group_by"]))
     op = {"op": name}
     if name in ("filter", "filter_out"):
         op["pred"] = draw(_pred())
@@ -70,6 +71,9 @@ def _op(draw, counter):
     elif name == "sort":
         ks = draw(st.sampled_from([["a"], ["b"], ["a", "b"], ["b", "a"], ["_id"]]))
         op["keys"] = [[k, draw(st.sampled_from([1, -1]))] for k in ks]
+    elif name == "group_by":
+        # marks the receiver (and every list derived from it) as grouped: later steps must not care
+        op["keys"] = [draw(st.sampled_from(["a", "b", "_id"]))]
     elif name == "unique":
         op["keys"] = draw(st.sampled_from([[], ["a"], ["b"], ["a", "b"], ["b", "a"]]))
     elif name in ("select", "unselect"):
@@ -156,6 +160,9 @@ def mk_pred(p):
         return lambda it: it.get(p[1]) == p[2] and type(it.get(p[1])) is type(p[2])
     if p[0] == "isnone":
         return lambda it: it.get(p[1]) is None
+    if p[0] == "truthy":
+        # the predicate hands back the value itself (2, "x", "", None, a list ...): its truth value decides
+        return lambda it: ([it.get(p[1])] if p[2] and it.get(p[1]) is not None else it.get(p[1]))
     return lambda it: p[1] in it
 
 
@@ -265,8 +272,8 @@ def ref_apply(ref, op):
         return ref[len(ref) - k:]
     if name == "slice":
         return ref[slice(*op["s"])]
-    if name == "keys":
-        return list(ref)                        # a query, the list itself is unchanged
+    if name in ("keys", "group_by"):
+        return list(ref)                        # a query / a mark on the list: the items are unchanged
     raise AssertionError(name)
 
 
@@ -324,6 +331,11 @@ def real_apply(real, op):
         return getattr(real, name)(_n(op["n"], len(real)))
     if name == "slice":
         return real[slice(*op["s"])]
+    if name == "group_by":
+        g = real.group_by(*op["keys"])
+        if g is not real:
+            raise Violation("group_by is documented to mark and return the receiver")
+        return real
     if name == "keys":
         got = list(real.keys())
         want = []
